@@ -46,7 +46,7 @@ type c20pppoe struct {
 	segConc  bool
 	server   net.HardwareAddr
 	wrapped  bool
-	lostSeen bool
+	an       c20anoms
 }
 
 func c20mac(i int) net.HardwareAddr { return net.HardwareAddr{0x02, 0x20, 0, 0, 0, byte(i + 1)} }
@@ -142,6 +142,8 @@ func (w *c20pppoe) exec(client int, op sim.Op) (c20pin, c20pout, *c20pslot) {
 // check compares every lookup with the model of live sessions.
 func (w *c20pppoe) check(after string) {
 	c := w.c
+	w.an.begin()
+	defer w.an.end()
 	liveByID := map[uint16]*c20pslot{}
 	for _, sl := range w.slots {
 		if sl.live {
@@ -156,12 +158,24 @@ func (w *c20pppoe) check(after string) {
 		seen[sl.id] = true
 		s := w.m.GetSession(sl.id)
 		l := liveByID[sl.id]
+		kind := ""
 		switch {
 		case l != nil && s == nil:
-			c.Fail("others-unchanged", "pppoe/get/missing/after-"+after, "after %s GetSession(%d) returns nothing, the session of MAC #%d was not removed", after, sl.id, l.mac)
+			kind = "missing"
 		case l != nil && (s.ID != sl.id || w.macIdx(s.ClientMAC) != l.mac):
-			c.Fail("lookups-agree", "pppoe/get/wrong/after-"+after, "GetSession(%d) returns id %d MAC #%d, expected MAC #%d", sl.id, s.ID, w.macIdx(s.ClientMAC), l.mac)
+			kind = "wrong"
 		case l == nil && s != nil:
+			kind = "ghost"
+		}
+		if kind == "" || !w.an.fresh(fmt.Sprintf("get/%s/%d", kind, sl.id)) {
+			continue
+		}
+		switch kind {
+		case "missing":
+			c.Fail("others-unchanged", "pppoe/get/missing/after-"+after, "after %s GetSession(%d) returns nothing, the session of MAC #%d was not removed", after, sl.id, l.mac)
+		case "wrong":
+			c.Fail("lookups-agree", "pppoe/get/wrong/after-"+after, "GetSession(%d) returns id %d MAC #%d, expected MAC #%d", sl.id, s.ID, w.macIdx(s.ClientMAC), l.mac)
+		default:
 			c.Fail("release", "pppoe/get/ghost/after-"+after, "after %s GetSession(%d) still returns a session although it was removed", after, sl.id)
 		}
 	}
@@ -174,16 +188,16 @@ func (w *c20pppoe) check(after string) {
 		}
 		s := w.m.GetSessionByMAC(c20mac(m))
 		switch {
+		case s == nil && len(live) > 0 && !w.an.fresh(fmt.Sprintf("bymac-lost/%d", m)):
 		case s == nil && len(live) > 0:
 			many := "single"
 			if len(live) > 1 || w.hadSibling(m) {
 				many = "sibling-sessions"
 			}
 			c.Fail("lookups-agree", "pppoe/by-mac/lost/"+many+"/after-"+after, "after %s GetSessionByMAC(MAC #%d) returns nothing although session(s) %v of that MAC are live (GetSession finds them)", after, m, live)
-			w.lostSeen = true
 		case s != nil:
 			l := liveByID[s.ID]
-			if l == nil || l.mac != m || w.macIdx(s.ClientMAC) != m {
+			if (l == nil || l.mac != m || w.macIdx(s.ClientMAC) != m) && w.an.fresh(fmt.Sprintf("bymac-stale/%d", m)) {
 				c.Fail("lookups-agree", "pppoe/by-mac/stale/after-"+after, "after %s GetSessionByMAC(MAC #%d) returns session %d (MAC #%d) which is not a live session of that MAC (live: %v)", after, m, s.ID, w.macIdx(s.ClientMAC), live)
 			}
 		}
